@@ -47,13 +47,16 @@ const topEvery = 6      // one type in topEvery is a top-level slice / map targe
 const maxVariants = 128 // fault variants executed per case
 
 func (check) Rule() string {
-	return "one case = (type, plan). Type: top-level struct of 2-6 fields, depth <= 3, fields of kind int int64 uint float64 string time.Duration and the library leaves Port / Level / DefLevel / DefBad (Validate with value or pointer receiver, InitDefaults giving a valid or an invalid value), pointers to those, slices / arrays / maps of those, structs by value, by pointer, inline, in slices, arrays and maps (by value and by pointer), interface{} fields (holding a number, a string or a pointer to struct), ignored fields, and the library structs WithDefaults / WithBadDefaults (InitDefaults), Range / Pair (cross-field Validate, value / pointer receiver), Hidden (unexported + ignored field); collision-free `config` names and 0-2 validators per field among required, nonzero, positive, min=N, max=N (durations: 5s or 5) that apply to the kind; one type per " + strconv.Itoa(typeShare) + " consecutive cases. Half of the slice fields and one in eight struct / pointer-to-struct / map-of-struct fields carry a merge option in the config tag (append, prepend, replace, merge; inherited by the fields below); one slice field in five is the library type Small ([]int with its own Validate). One type in " + strconv.Itoa(topEvery) + " is a slice or map that is ITSELF the Unpack target (Unpack(&[]T{...}) / Unpack(&map[string]T{...}), configuration a list / object, no variables). Plan: one plan in three passes AppendValues / PrependValues / ReplaceValues / ReplaceArrValues to Unpack; every position independently takes its value from the configuration (spelled as int/int64/uint64/float/string, durations as text or seconds, 1 in 6 through ${v.xN} under PathSep(.)+VarExp), from the pre-filled target, from InitDefaults, or stays zero/nil; slices mix configured, merged and untouched pre-filled elements (index by index without merge mode; separate configured and pre-filled elements under append / prepend / replace), maps mix configured, pre-filled and merged entries; a slice or map without configured elements is absent, null, or present as an empty list / object, over a nil or a filled pre-fill (also shorter lists than the pre-fill). Valid values are interior or exactly on a bound (bounds are inclusive). Base plan: Unpack must return nil and the oracle walk must be clean. Then every (position, validator, source) fault the plan admits (<= " + strconv.Itoa(maxVariants) + " per case) is injected alone: bad value from the configuration / through a variable / as pre-filled default / by leaving the field absent / by InitDefaults / as explicit null / as a pre-filled element or entry that survives the merge while the configuration gives the collection as EMPTY list or object (default+empty-config) / a `required` or `nonzero` collection given as empty list or object over a nil, an empty non-nil or (replace) a dropped pre-fill / one element of a Small too big for its Validate; Unpack must fail and name the field. A fault variant is executed only if the model of Unpack for these shapes agrees that exactly this position is invalid. Non-trivial = the type has at least one validator-bearing position; distinct = distinct (type, sources of all leaves, fault)."
+	return "one case = (type, plan). Type: top-level struct of 2-6 fields, depth <= 3, fields of kind int int8 int32 int64 uint uint8 uint32 uint64 float32 float64 string time.Duration, the library leaves Port / Level / DefLevel / DefBad (Validate with value or pointer receiver, InitDefaults giving a valid or an invalid value) and the library leaves UNum / ULevel / UPort / UStr that receive their value through go-ucfg's Unpacker / IntUnpacker / UintUnpacker / StringUnpacker interface (ULevel, UPort also with Validate), pointers to those, slices / arrays / maps of those, structs by value, by pointer, inline, in slices, arrays and maps (by value and by pointer), interface{} fields (holding a number, a string or a pointer to struct), ignored fields, and the library structs WithDefaults / WithBadDefaults (InitDefaults), Range / Pair (cross-field Validate, value / pointer receiver), URange (ConfigUnpacker + cross-field Validate), Hidden (unexported + ignored field); collision-free `config` names and 0-2 validators per field among required, nonzero, positive, min=N, max=N (durations: 5s or 5) that apply to the kind (one min / max in eight of a 64 bit integer field is a bound at the edge of the kind: 2^63-1, 2^63, 2^64-2, -2^63+1, 2^63-2); every second type declares, field by field, a second independent set of validators under the struct tag `" + altTag + "` next to `validate` (WithDefaults / WithBadDefaults always do); one type per " + strconv.Itoa(typeShare) + " consecutive cases. Half of the slice fields and one in eight struct / pointer-to-struct / map-of-struct fields carry a merge option in the config tag (append, prepend, replace, merge; inherited by the fields below); one slice field in five is the library type Small ([]int with its own Validate). One type in " + strconv.Itoa(topEvery) + " is a slice or map that is ITSELF the Unpack target (Unpack(&[]T{...}) / Unpack(&map[string]T{...}), configuration a list / object, no variables). Validator tag name: Unpack is called without ValidatorTag, with ValidatorTag(validate) or with ValidatorTag(" + altTag + ") (half of the cases of a two-tag type, one in eight of the others, where then no tag validator is in force at all); values, faults and oracle follow the validators declared under the name in force. In half of the cases of a two-tag type (a quarter of the others) the same type and input are first unpacked under the OTHER tag name (a sequence of two Unpack calls with different options in one process); of that first call only panics and accepted numbers outside min / max / positive or rejected by Validate() are judged. Plan: one plan in three passes AppendValues / PrependValues / ReplaceValues / ReplaceArrValues to Unpack; every position independently takes its value from the configuration (spelled as int/int64/uint64/float/string, durations as text or seconds, 1 in 6 through ${v.xN} under PathSep(.)+VarExp), from the pre-filled target, from InitDefaults, or stays zero/nil; slices mix configured, merged and untouched pre-filled elements (index by index without merge mode; separate configured and pre-filled elements under append / prepend / replace), maps mix configured, pre-filled and merged entries; a slice or map without configured elements is absent, null, or present as an empty list / object, over a nil or a filled pre-fill (also shorter lists than the pre-fill). Valid values are interior or exactly on a bound (bounds are inclusive); one valid number in eight and one min / max / positive fault in three takes a value at the edge of the kind's range (MinInt / MaxInt of the width, +-2^7 2^8 2^31 2^32 2^53 2^63 and their neighbours, MaxUint64, +-1e18 +-1e300 1e-300, +-1e30 for float32, +-2562047h), spelled as int64 / uint64 / float / decimal string or through a variable; values against an edge bound are drawn from the neighbours of the bound and compared exactly. Base plan: Unpack must return nil and the oracle walk must be clean. Then every (position, validator, source) fault the plan admits (<= " + strconv.Itoa(maxVariants) + " per case) is injected alone: bad value from the configuration / through a variable / as pre-filled default / by leaving the field absent / by InitDefaults / as explicit null / as a pre-filled element or entry that survives the merge while the configuration gives the collection as EMPTY list or object (default+empty-config) / a `required` or `nonzero` collection given as empty list or object over a nil, an empty non-nil or (replace) a dropped pre-fill / one element of a Small too big for its Validate; Unpack must fail and name the field. A fault variant is executed only if the model of Unpack for these shapes agrees that exactly this position is invalid. Non-trivial = the type has at least one validator-bearing position; distinct = distinct (type, sources of all leaves, fault)."
 }
 
 func (check) Assumptions() []string {
 	return []string{
 		"oracle = own reflection walk written from the doc comment of Unpack: required (non-nil, number != 0, non-empty string/slice/map), nonzero (number != 0, non-empty; nil allowed), positive (>= 0), min/max inclusive, durations compared as durations (bound 5s or a number of seconds); validators look through pointers and interfaces; ignored and unexported fields are skipped; Validate() is called on every reachable value of the library types (value or pointer receiver)",
-		"only clear cases are generated: bad values miss a bound by >= 0.5, no nil-vs-empty collection under required/nonzero (collections under these tags are non-empty when valid, and the only collection fault is `required` with the field absent), no validator on a kind it does not apply to, no negative bound on unsigned, `required` is only ever satisfied from the configuration, a zero left in an absent non-pointer `nonzero` field is never generated (validator.go's own comment contradicts the Unpack documentation there), a pre-filled value that the configuration overwrites is itself valid",
+		"a wrong outcome is classified by re-running the same input on twins of the type that go-ucfg has never unpacked (same fields, names, options, validators; one meaningless extra key in every struct tag): right on the twin = the outcome depends on earlier Unpack calls of the type (sig depends-on-earlier-unpack-of-the-type:*); right only on a twin whose two tag names both declare the validators of the name in force = sig validator-tag-option:validators-of-the-other-tag-name-applied:*; hand-written library structs cannot be rebuilt, deviations inside them keep the plain signature. The twins only choose the signature, never whether there is a violation",
+		"types with an Unpack method: the property makes no exception for them - the value they end up with must satisfy the field's tag validators and their own Validate() like any other value (sig unpacker-typed-value-not-validated:* when the accepted invalid value is of such a type); every Unpack of the library leaves stores exactly the value it is given",
+		"numbers at the edge of a kind are only compared against small bounds or (64 bit integers) against edge bounds with exact integer arithmetic; durations at the edge stay 47 minutes inside the int64 range; no NaN / Inf",
+		"only clear cases are generated: bad values miss a bound by >= 0.5 (by >= 1 for integers), no nil-vs-empty collection under required/nonzero (collections under these tags are non-empty when valid, and the only collection fault is `required` with the field absent), no validator on a kind it does not apply to, no negative bound on unsigned, `required` is only ever satisfied from the configuration, a zero left in an absent non-pointer `nonzero` field is never generated (validator.go's own comment contradicts the Unpack documentation there), a pre-filled value that the configuration overwrites is itself valid",
 		"the error must contain the dotted path of the faulty field (a.b.0.c) as a delimited token: the characters next to the occurrence are no path characters (letters, digits, _ . -); wording and quoting are not looked at. Accepted as well: the path of any setting enclosing the field (a non-empty proper prefix of its path) when the fault sits inside an element of a slice/array/map, or when the fault does not come from the configuration (pre-filled default, InitDefaults, absent): there is no configuration node to name then. A path that is neither the field nor one of its enclosing settings, or no path at all, is a violation",
 		"for a cross-field Validate() of a struct the faulty 'field' is the struct value itself; for Validate() of a slice type it is the slice; a top-level slice / map target has no name of its own: an error naming no field of the type at all names it (classes: other-path = the message holds the path of another field of the type as a token, no-path otherwise)",
 		"merge modes: which pre-filled elements survive is taken from the documentation of the tag options (append / prepend: all, default: the tail beyond the configured list, replace: none); pre-filled elements under replace are no fault positions, because Unpack merges the configured elements into copies of them (not judged here); the error for a configured element must name its index in the configuration list, the walk looks at its index in the result",
@@ -69,17 +72,19 @@ var unpackOpts = []ucfg.Option{ucfg.PathSep("."), ucfg.VarExp}
 
 var (
 	typeMu    sync.Mutex
-	typeCache = map[int64]*tnode{}
+	typeCache = map[int64][2]*tnode{}
 )
 
-func typeFor(tseed int64, topColl bool) *tnode {
+// typeFor returns the two readings of one generated type: [0] with the
+// validators of the `validate` tag in force, [1] with those of altTag.
+func typeFor(tseed int64, topColl bool) [2]*tnode {
 	typeMu.Lock()
 	defer typeMu.Unlock()
 	if t, ok := typeCache[tseed]; ok {
 		return t
 	}
 	if len(typeCache) > 16 {
-		typeCache = map[int64]*tnode{}
+		typeCache = map[int64][2]*tnode{}
 	}
 	var t *tnode
 	if topColl {
@@ -87,8 +92,9 @@ func typeFor(tseed int64, topColl bool) *tnode {
 	} else {
 		t = genType(rand.New(rand.NewSource(tseed)))
 	}
-	typeCache[tseed] = t
-	return t
+	pair := [2]*tnode{t, swapTags(t)}
+	typeCache[tseed] = pair
+	return pair
 }
 
 // ---------------------------------------------------------------------------
@@ -106,7 +112,12 @@ type fault struct {
 	emptyColl *pnode
 }
 
-func libValidate(k kind) bool { return k == kPort || k == kLevel || k == kDefLevel || k == kDefBad }
+func libValidate(k kind) bool {
+	return k == kPort || k == kLevel || k == kDefLevel || k == kDefBad || k == kULevel || k == kUPort
+}
+
+// crossField: library structs whose Validate compares their two fields.
+func crossField(lib string) bool { return lib == "Range" || lib == "Pair" || lib == "URange" }
 
 // holderInit: value InitDefaults of the holding library struct gives the field.
 func holderInit(n *pnode) interface{} {
@@ -188,7 +199,7 @@ func enumerate(r *rand.Rand, top *pnode) []fault {
 			return
 		}
 		if n.structLike() {
-			if s := n.structType(); len(n.kids) == 2 && (s.lib == "Range" || s.lib == "Pair") {
+			if s := n.structType(); len(n.kids) == 2 && crossField(s.lib) {
 				out = append(out, fault{pos: n, validator: vtag{name: "Validate"}, source: "config", structLvl: true},
 					fault{pos: n, validator: vtag{name: "Validate"}, source: "default", structLvl: true})
 			}
@@ -466,7 +477,7 @@ func injectStruct(n *pnode, f fault) bool {
 		}
 	}
 	switch s.lib {
-	case "Range":
+	case "Range", "URange":
 		set(n.kids[0], int64(9))
 		set(n.kids[1], int64(2))
 	case "Pair":
@@ -484,8 +495,24 @@ func kindClass(k kind) string {
 		return "duration"
 	case kPort, kLevel, kDefLevel, kDefBad:
 		return "named-number"
+	case kUNum, kULevel, kUPort:
+		return "unpacker-number"
+	case kUStr:
+		return "unpacker-string"
 	}
 	return "number"
+}
+
+// unpackerPosition: the value at n is of a type with an Unpack method (a
+// library leaf, or the struct URange itself for its cross-field Validate).
+func unpackerPosition(n *pnode) bool {
+	if k, ok := n.leafKind(); ok {
+		return k.unpacker()
+	}
+	if s := n.structTypeOrNil(); s != nil && s.rt != nil {
+		return hasUnpack(s.rt)
+	}
+	return false
 }
 
 func insideElement(n *pnode) bool {
@@ -577,7 +604,18 @@ func optionsFor(top *pnode) []ucfg.Option {
 	case "replacearr":
 		opts = append(opts, ucfg.ReplaceArrValues)
 	}
+	if top.vopt != "" {
+		opts = append(opts, ucfg.ValidatorTag(top.vopt))
+	}
 	return opts
+}
+
+// tagName: the struct tag name whose validators are in force for the plan.
+func (n *pnode) tagName() string {
+	if n.vopt != "" {
+		return n.vopt
+	}
+	return "validate"
 }
 
 func panicSig(where string) string {
@@ -666,7 +704,8 @@ func (check) Run(seed int64, tier string, idx int, verbose bool) harness.Result 
 	res := harness.NewR(idx)
 	// every topEvery-th type is a slice or map that is itself the Unpack target
 	topColl := (idx/typeShare)%topEvery == topEvery-1
-	top := typeFor(harness.Mix(seed, "C04type", idx/typeShare), topColl)
+	pair := typeFor(harness.Mix(seed, "C04type", idx/typeShare), topColl)
+	top := pair[0]
 	// norm turns a path of the wrapper into what the target's configuration calls it
 	norm := func(p string) string {
 		if !topColl {
@@ -689,6 +728,51 @@ func (check) Run(seed int64, tier string, idx int, verbose bool) harness.Result 
 	r := rand.New(rand.NewSource(harness.Mix(seed, "C04", idx)))
 	typeStr := top.String()
 
+	// The struct tag name the validators are read from: `validate` (no option,
+	// or ValidatorTag("validate")) or altTag (ValidatorTag(altTag)); types whose
+	// fields declare validators under both names use altTag in half of their
+	// cases, the others (nothing declared under altTag: no tag validator is in
+	// force) in one of eight. In part of the cases another Unpack of the same
+	// type under the OTHER name precedes (priorVopt / hasPrior).
+	hasAlt := declaresAlt(top)
+	vopt := ""
+	switch x := r.Intn(8); {
+	case hasAlt && x < 4, x < 1:
+		vopt = altTag
+	case hasAlt && x < 6, x < 3:
+		vopt = "validate"
+	}
+	hasPrior, priorVopt := false, ""
+	if hasAlt && r.Intn(2) == 0 || r.Intn(4) == 0 {
+		hasPrior = true
+		if vopt != altTag {
+			priorVopt = altTag
+		} else if r.Intn(2) == 0 {
+			priorVopt = "validate"
+		}
+	}
+	inForce, otherTag := "validate", altTag
+	if vopt == altTag {
+		top = pair[1]
+		inForce, otherTag = altTag, "validate"
+	}
+	tagDim := hasPrior || vopt != ""
+	optName := func(v string) string {
+		if v == "" {
+			return "none"
+		}
+		return "ValidatorTag(" + v + ")"
+	}
+	res.SetAdd("validator_tag_option", optName(vopt))
+	if hasAlt {
+		res.SetAdd("tag_in_force_of_two_tag_type", inForce)
+	} else {
+		res.SetAdd("tag_in_force_of_one_tag_type", inForce)
+	}
+	if vopt == altTag {
+		res.Ev("cases_validators_of_alt_tag_in_force", 1)
+	}
+
 	// a base plan without fault, confirmed by the model
 	var base *pnode
 	for attempt := 0; attempt < 8 && base == nil; attempt++ {
@@ -697,8 +781,9 @@ func (check) Run(seed int64, tier string, idx int, verbose bool) harness.Result 
 			res.Ev("plan_infeasible_retry", 1)
 			continue
 		}
+		p.vopt = vopt
 		var fs []finding
-		if bad, pv, _ := harness.Safe(func() { fs = walk(model(p)) }); bad {
+		if bad, pv, _ := harness.Safe(func() { fs = walk(model(p), inForce) }); bad {
 			res.Inconc("model panicked on a base plan: %s; type %s", pv, typeStr)
 			return res.Done()
 		}
@@ -743,10 +828,28 @@ func (check) Run(seed int64, tier string, idx int, verbose bool) harness.Result 
 				res.SetAdd("valid", v.name+":"+n.source()+":"+n.shape+"("+kindNames[n.t.k]+")")
 			}
 		}
+		if unpackerPosition(n) {
+			res.Ev("unpacker_typed_positions", 1)
+			res.SetAdd("unpacker_position", kindNames[n.t.k]+"@"+n.shape+":"+n.source())
+		}
 		if k, ok := n.leafKind(); ok {
 			src := n.source()
 			if src == "absent" && n.parent.reified() && (n.t.k.scalar() && initValue(k) != nil || holderInit(n) != nil) {
 				src = "initdefaults"
+			}
+			held := heldValue(n)
+			if isEdgeValue(held) {
+				res.Ev("valid_values_at_the_edge_of_the_kind", 1)
+				if _, big := held.(uint64); big {
+					res.Ev("valid_values_at_or_above_2^63", 1)
+				}
+				res.SetAdd("edge_value_kind", kindNames[k]+":"+src)
+			}
+			for _, v := range n.vals() {
+				if isEdge(v.param) {
+					res.Ev("positions_with_bound_at_the_edge_of_the_kind", 1)
+					res.SetAdd("edge_bound", kindNames[k]+":"+v.name+"="+v.param)
+				}
 			}
 			res.SetAdd("valid_source", src)
 			for _, v := range n.vals() {
@@ -761,10 +864,137 @@ func (check) Run(seed int64, tier string, idx int, verbose bool) harness.Result 
 	if base.global != "" {
 		optDesc += "+" + base.global
 	}
+	res.SetAdd("global_option", optDesc)
+	if vopt != "" {
+		optDesc += "+" + optName(vopt)
+	}
+	if hasPrior {
+		optDesc += " (after an Unpack of the same type and input with ValidatorTag option " + optName(priorVopt) + ")"
+	}
 	describe := func(o outcome) string {
 		return fmt.Sprintf("type %s; options %s; config %v; pre-filled %s", typeStr, optDesc, o.cfg, o.preDesc)
 	}
-	res.SetAdd("global_option", optDesc)
+	byPath := map[string]*pnode{}
+	base.each(func(n *pnode) { byPath[n.rpath] = n })
+
+	// Why an outcome is wrong is told apart by re-running the same input on
+	// twins of the type (types.go): twin A is the same type built anew, which
+	// go-ucfg has never unpacked before; on twin B in addition BOTH tag names
+	// declare the validators of the name in force. A wrong outcome that is right
+	// on twin A depends on earlier Unpack calls of the type; one that is right
+	// only on twin B comes from reading the declarations of the other tag name.
+	type twinT struct {
+		top *tnode
+		m   twinMaps
+	}
+	// (a twin is only ever unpacked with one ValidatorTag option)
+	twins := map[string]*twinT{}
+	twinRun := func(plan *pnode, onlyInForce bool) (outcome, bool) {
+		var o outcome
+		bad, _, _ := harness.Safe(func() {
+			key := fmt.Sprint(onlyInForce, plan.vopt)
+			tw := twins[key]
+			if tw == nil {
+				tt, m := twinType(top, inForce, otherTag, onlyInForce)
+				tw = &twinT{tt, m}
+				twins[key] = tw
+			}
+			o = run(res, retarget(plan, nil, tw.m))
+		})
+		res.Ev("twin_type_reruns_of_wrong_outcomes", 1)
+		return o, !bad && !o.panicked && o.newErr == nil
+	}
+	holds := func(o outcome, tag, path, validator string) bool {
+		if o.err != nil {
+			return false
+		}
+		for _, x := range walk(o.target, tag) {
+			if x.path == path && x.validator == validator {
+				return true
+			}
+		}
+		return false
+	}
+	// acceptedSig classifies "Unpack (validators of `tag` in force) returned nil
+	// although the value at `path` (position n) breaks `validator`".
+	acceptedSig := func(plan, n *pnode, tag, path, validator, source, shape, dflt string) string {
+		if o, ok := twinRun(plan, false); ok && !holds(o, tag, path, validator) {
+			return "depends-on-earlier-unpack-of-the-type:invalid-accepted"
+		}
+		if tag == inForce && validator != "Validate" {
+			if o, ok := twinRun(plan, true); ok && !holds(o, tag, path, validator) {
+				return "validator-tag-option:validators-of-the-other-tag-name-applied:invalid-accepted"
+			}
+		}
+		if n != nil && unpackerPosition(n) {
+			what := "tag"
+			if validator == "Validate" {
+				what = "Validate"
+			}
+			return "unpacker-typed-value-not-validated:" + what + ":" + source + ":" + shape
+		}
+		return dflt
+	}
+	rejectedSig := func(plan *pnode, dflt string) string {
+		if o, ok := twinRun(plan, false); ok && o.err == nil {
+			return "depends-on-earlier-unpack-of-the-type:valid-rejected"
+		}
+		{
+			if o, ok := twinRun(plan, true); ok && o.err == nil {
+				return "validator-tag-option:validators-of-the-other-tag-name-applied:valid-rejected"
+			}
+		}
+		return dflt
+	}
+
+	// ---- an earlier Unpack of the same type under the other tag name. Only
+	// what is clear under any tag is judged: no panic, and an accepted result
+	// holds no number outside min / max / positive of the tag it was given and
+	// no value its Validate() rejects.
+	if hasPrior {
+		res.Ev("cases_with_prior_unpack_under_the_other_tag_name", 1)
+		res.SetAdd("prior_unpack_option", optName(priorVopt)+"-then-"+optName(vopt))
+		pp := base.clone(nil, map[*pnode]*pnode{})
+		pp.vopt = priorVopt
+		po := run(res, pp)
+		if verbose {
+			fmt.Printf("prior Unpack with ValidatorTag option %s: err=%v panic=%v %s\n", optName(priorVopt), po.err, po.panicked, po.pv)
+		}
+		switch {
+		case po.panicked:
+			res.Violate(panicSig(po.where), "Unpack (ValidatorTag option %s) panicked: %q at %s; %s", optName(priorVopt), po.pv, po.where, describe(po))
+			return res.Done()
+		case po.newErr != nil:
+			res.Inconc("NewFrom failed on a generated configuration: %v; config %v", po.newErr, po.cfg)
+			return res.Done()
+		case po.err == nil:
+			res.SetAdd("prior_unpack_outcome", "accepted")
+			for _, f := range walk(po.target, otherTag) {
+				switch f.validator {
+				case "min", "max", "positive", "Validate":
+				default:
+					continue
+				}
+				n := byPath[f.path]
+				src, suffix := "unknown", ""
+				if n != nil {
+					src = n.source()
+					if _, leaf := n.leafKind(); leaf {
+						var alt []vtag
+						if n.f != nil && !n.isElem {
+							alt = n.f.alt
+						}
+						suffix = edgeSuffix(heldValue(n), alt)
+					}
+				}
+				sig := acceptedSig(pp, n, otherTag, f.path, f.validator, src, f.shape, "soundness:"+f.validator+":prior-call:"+f.shape+suffix)
+				res.Violate(sig, "Unpack with ValidatorTag option %s returned nil but the result breaks a validator of that tag at '%s': %s; result %s; type %s; config %v; pre-filled %s",
+					optName(priorVopt), f.path, f.detail, canonVal(po.target.Elem()), typeStr, po.cfg, po.preDesc)
+			}
+		default:
+			res.SetAdd("prior_unpack_outcome", "rejected")
+		}
+	}
 
 	// ---- base: valid input
 	o := run(res, base)
@@ -808,22 +1038,26 @@ func (check) Run(seed int64, tier string, idx int, verbose bool) harness.Result 
 						names = []string{"none"}
 					}
 					sig = "valid-input-rejected:" + strings.Join(names, "+") + ":" + n.source() + ":" + n.shape
+					if _, leaf := n.leafKind(); leaf {
+						sig += edgeSuffix(heldValue(n), n.vals())
+					}
 				}
 			})
 		}
+		sig = rejectedSig(base, sig)
 		res.Violate(sig, "Unpack rejects an input that satisfies every validator: %v; sources %s; %s", o.err, srcs, describe(o))
 		res.SetAdd("outcome", "base:rejected")
 		return res.Done()
 	}
 	res.SetAdd("outcome", "base:accepted")
-	byPath := map[string]*pnode{}
-	base.each(func(n *pnode) { byPath[n.rpath] = n })
-	for _, f := range walk(o.target) {
+	for _, f := range walk(o.target, inForce) {
 		src := "unknown"
-		if n := byPath[f.path]; n != nil {
+		n := byPath[f.path]
+		if n != nil {
 			src = n.source()
 		}
-		res.Violate("soundness:"+f.validator+":"+src+":"+f.shape, "Unpack returned nil but the result breaks a validator at '%s': %s; sources %s; result %s; %s",
+		sig := acceptedSig(base, n, inForce, f.path, f.validator, src, f.shape, "soundness:"+f.validator+":"+src+":"+f.shape)
+		res.Violate(sig, "Unpack returned nil but the result breaks a validator at '%s': %s; sources %s; result %s; %s",
 			f.path, f.detail, srcs, canonVal(o.target.Elem()), describe(o))
 	}
 	if want := canonVal(model(base).Elem()); want != canonVal(o.target.Elem()) {
@@ -863,7 +1097,7 @@ func (check) Run(seed int64, tier string, idx int, verbose bool) harness.Result 
 		}
 		// the model must see exactly this fault
 		var fs []finding
-		if bad, pv, _ := harness.Safe(func() { fs = walk(model(variant)) }); bad {
+		if bad, pv, _ := harness.Safe(func() { fs = walk(model(variant), inForce) }); bad {
 			res.Inconc("model panicked on a fault variant %s at '%s': %s; type %s", fid, n.path, pv, typeStr)
 			continue
 		}
@@ -889,6 +1123,25 @@ func (check) Run(seed int64, tier string, idx int, verbose bool) harness.Result 
 		res.Key(hashKey(typeStr + "|" + vsrcs + "|" + fid + "@" + n.path))
 		res.SetAdd("exercised", fid)
 		res.Ev("fault_variants", 1)
+		if isEdgeValue(f.bad) {
+			res.Ev("fault_variants_with_value_at_the_edge_of_the_kind", 1)
+			if _, big := f.bad.(uint64); big {
+				res.Ev("fault_variants_with_value_at_or_above_2^63", 1)
+			}
+			if lk, ok := n.leafKind(); ok {
+				res.SetAdd("edge_value_fault", kindNames[lk]+":"+f.validator.name+":"+source)
+			}
+		}
+		if isEdge(f.validator.param) {
+			res.Ev("fault_variants_against_bound_at_the_edge_of_the_kind", 1)
+		}
+		if unpackerPosition(n) {
+			res.Ev("fault_variants_at_unpacker_typed_positions", 1)
+			res.SetAdd("unpacker_fault", fid)
+		}
+		if tagDim {
+			res.Ev("fault_variants_with_tag_option_or_prior_unpack", 1)
+		}
 
 		o := run(res, variant)
 		what := fmt.Sprintf("fault %s at '%s' (bad value %s)", fid, n.path, show(f.bad))
@@ -906,7 +1159,7 @@ func (check) Run(seed int64, tier string, idx int, verbose bool) harness.Result 
 			res.Inconc("NewFrom failed on a fault configuration: %v; config %v", o.newErr, o.cfg)
 		case o.err == nil:
 			seen := false
-			for _, x := range walk(o.target) {
+			for _, x := range walk(o.target, inForce) {
 				if x.path == n.rpath {
 					if seen {
 						continue
@@ -931,6 +1184,8 @@ func (check) Run(seed int64, tier string, idx int, verbose bool) harness.Result 
 							sig = "initdefaults-value-of-primitive-not-validated:Validate"
 						}
 					}
+					sig += edgeSuffix(f.bad, []vtag{f.validator})
+					sig = acceptedSig(variant, n, inForce, n.rpath, f.validator.name, source, shape, sig)
 					res.Violate(sig, "%s: Unpack returned nil and the result holds the invalid value: %s; result %s; %s", what, x.detail, canonVal(o.target.Elem()), describe(o))
 				} else {
 					res.Violate("soundness:"+x.validator+":unknown:"+x.shape, "%s: Unpack returned nil and the result breaks a validator at another place '%s': %s; result %s; %s",
@@ -1086,4 +1341,45 @@ func canonInto(b *strings.Builder, v reflect.Value) {
 		}
 		fmt.Fprint(b, v.Interface())
 	}
+}
+
+// declaresAlt: some field of the type declares validators under altTag.
+func declaresAlt(t *tnode) bool {
+	if t == nil {
+		return false
+	}
+	for _, f := range t.fields {
+		if !f.ignore && (len(f.alt) > 0 || declaresAlt(f.t)) {
+			return true
+		}
+	}
+	return declaresAlt(t.elem)
+}
+
+// edgeSuffix qualifies a signature when the value involved lies at the edge of
+// its kind's range or is judged against a bound that does.
+func edgeSuffix(v interface{}, vals []vtag) string {
+	for _, t := range vals {
+		if isEdge(t.param) {
+			return ":bound-at-the-edge-of-the-kind"
+		}
+	}
+	if _, big := v.(uint64); big {
+		return ":value-at-or-above-2^63"
+	}
+	if isEdgeValue(v) {
+		return ":value-at-the-edge-of-the-kind"
+	}
+	return ""
+}
+
+// heldValue: the value the plan gives a leaf position (nil: none).
+func heldValue(n *pnode) interface{} {
+	switch {
+	case n.inCfg && !n.cfgNull:
+		return n.cfgVal
+	case n.inPre && !n.inCfg:
+		return n.preVal
+	}
+	return nil
 }
